@@ -1,12 +1,1094 @@
 //! C13 — imports resolve deterministically, load once and deliver exact content.
-use crate::json::Json;
-use crate::util::Violation;
+//! Directory-tree worlds for the real binary, a small resolution model whose
+//! primitives (exists / canonical / bytes) are asked of the real tree, and
+//! faults placed inside the lookups.
 
-pub fn run_batch(_tier: &str, _root: u64, _workers: usize, _scale: u64) -> i32 {
-    eprintln!("HARNESS ERROR: C13 not built yet");
-    2
+use std::collections::{BTreeMap, BTreeSet};
+use std::path::{Path, PathBuf};
+use std::time::Instant;
+
+use crate::cliworld::{run_world, Entry, LogLine, Rule, RunOut, StdoutKind, World};
+use crate::json::{self, Json};
+use crate::rng::Rng;
+use crate::util::{bump, Evidence, Violation};
+
+#[derive(Clone, Debug, PartialEq)]
+pub enum DepKind {
+    Import,
+    ImportStr,
+    ImportBin,
+    Ext(String),
 }
 
-pub fn replay(_scenario: &Json) -> Result<Option<Violation>, String> {
-    Err("C13 not built yet".into())
+#[derive(Clone, Debug)]
+pub struct Dep {
+    pub field: String,
+    pub kind: DepKind,
+    pub spelling: String,
+    pub line: usize,
+    pub col: usize,
+}
+
+#[derive(Clone, Debug)]
+pub struct Module {
+    pub id: String,
+    pub deps: Vec<Dep>,
+}
+
+#[derive(Clone, Debug, PartialEq)]
+pub enum MainKind {
+    File(String),
+    Exec,
+    Stdin,
+}
+
+#[derive(Clone, Debug)]
+pub struct C13World {
+    pub world: World,
+    /// module text by relative path (of the real file, not of symlinks)
+    pub modules: BTreeMap<String, Module>,
+    pub main: Module,
+    pub main_kind: MainKind,
+    pub jdirs: Vec<String>,
+    /// (var, path as given) of --ext-code-file arguments
+    pub ext_files: Vec<(String, String)>,
+}
+
+fn module_text(id: &str, deps: &mut [Dep], lazy: Option<&str>, unused: Option<&str>) -> String {
+    let mut lines: Vec<String> = Vec::new();
+    lines.push(format!("std.trace(\"EVAL:{id}\", {{"));
+    lines.push(format!("  id: \"{id}\","));
+    lines.push("  file: std.thisFile,".to_string());
+    lines.push("  deps: {".to_string());
+    for d in deps.iter_mut() {
+        let prefix = format!("    {}: ", d.field);
+        d.line = lines.len() + 1;
+        d.col = prefix.len() + 1;
+        let e = match &d.kind {
+            DepKind::Import => format!("import \"{}\"", d.spelling),
+            DepKind::ImportStr => format!("importstr \"{}\"", d.spelling),
+            DepKind::ImportBin => format!("importbin \"{}\"", d.spelling),
+            DepKind::Ext(var) => format!("std.extVar(\"{var}\")"),
+        };
+        lines.push(format!("{prefix}{e},"));
+    }
+    lines.push("  },".to_string());
+    if let Some(l) = lazy {
+        lines.push(format!("  lazy:: import \"{l}\","));
+    }
+    if let Some(u) = unused {
+        lines.push(format!("  unused: local x = import \"{u}\"; 0,"));
+    }
+    lines.push("})".to_string());
+    lines.join("\n") + "\n"
+}
+
+const NAMES: &[&str] = &["a.libsonnet", "b.libsonnet", "c.libsonnet", "d.libsonnet"];
+
+pub fn gen_world(seed: u64) -> C13World {
+    let mut r = Rng::stream(seed, "world");
+    let mut tree: Vec<(String, Entry)> = Vec::new();
+    let main_kind = match r.below(8) {
+        0 => MainKind::Exec,
+        1 => MainKind::Stdin,
+        2 => MainKind::File("main.jsonnet".into()),
+        3 => MainKind::File("./app/main.jsonnet".into()),
+        4 => MainKind::File("<ROOT>/app/main.jsonnet".into()),
+        5 => MainKind::File("app/sub/../main.jsonnet".into()),
+        _ => MainKind::File("app/main.jsonnet".into()),
+    };
+    let main_dir: Option<String> = match &main_kind {
+        MainKind::File(p) if p == "main.jsonnet" => Some(".".into()),
+        MainKind::File(_) => Some("app".into()),
+        _ => None,
+    };
+    // directories
+    let mut dirs: Vec<String> = vec!["app".into(), "app/sub".into()];
+    let all_j = ["j0", "j1", "j2"];
+    let nj = if main_dir.is_none() { 1 + r.usize_below(3) } else { r.usize_below(4) };
+    let mut jdirs: Vec<String> = all_j.iter().take(nj).map(|s| s.to_string()).collect();
+    r.shuffle(&mut jdirs);
+    for d in &jdirs {
+        dirs.push(d.clone());
+    }
+    if main_dir.as_deref() == Some(".") {
+        dirs.push(".".into());
+    }
+    for d in &dirs {
+        if d != "." {
+            tree.push((d.clone(), Entry::Dir));
+        }
+    }
+    let has_lnk = jdirs.contains(&"j0".to_string()) && r.chance(1, 2);
+    if has_lnk {
+        tree.push(("app/lnk".into(), Entry::Symlink("../j0".into())));
+    }
+    if r.chance(1, 4) {
+        // a -J directory that does not exist, and one that holds none of the names
+        jdirs.insert(r.usize_below(jdirs.len() + 1), "jmissing".into());
+    }
+    if r.chance(1, 4) {
+        tree.push(("jempty".into(), Entry::Dir));
+        jdirs.insert(r.usize_below(jdirs.len() + 1), "jempty".into());
+    }
+    // placement of copies
+    let place_dirs: Vec<String> = dirs.clone();
+    let mut copies: BTreeMap<String, Vec<String>> = BTreeMap::new(); // name -> dirs
+    for n in NAMES.iter().chain(["t.txt", "u.bin"].iter()) {
+        let mut ds = Vec::new();
+        for d in &place_dirs {
+            if r.chance(2, 5) {
+                ds.push(d.clone());
+            }
+        }
+        if ds.is_empty() {
+            ds.push(r.pick(&place_dirs).clone());
+        }
+        copies.insert(n.to_string(), ds);
+    }
+    let path_of = |d: &str, n: &str| if d == "." { n.to_string() } else { format!("{d}/{n}") };
+    let mut alias_d = false;
+    if r.chance(1, 3) {
+        // a symlink to a (leaf) file under another name in the importer's directory
+        let d = copies["d.libsonnet"][0].clone();
+        let target = path_of(&d, "d.libsonnet");
+        let up = if main_dir.as_deref() == Some(".") { String::new() } else { "../".to_string() };
+        let alias_path = if main_dir.as_deref() == Some(".") { "alias_d.libsonnet".to_string() } else { "app/alias_d.libsonnet".to_string() };
+        tree.push((alias_path, Entry::Symlink(format!("{up}{target}"))));
+        alias_d = true;
+    }
+    // planted faults of the real kind
+    let planted = if r.chance(1, 6) { r.below(3) + 1 } else { 0 };
+    if planted == 2 {
+        tree.push(("app/dangling.libsonnet".into(), Entry::Symlink("nowhere.libsonnet".into())));
+    }
+    if planted == 3 {
+        tree.push(("app/isdir.libsonnet".into(), Entry::Dir));
+        tree.push(("j0/isdir.libsonnet".into(), Entry::Dir));
+    }
+    let spell = |r: &mut Rng, name: &str, from_dir: Option<&str>, jd: &[String], copies: &BTreeMap<String, Vec<String>>| -> String {
+        // pick a target copy, then a spelling that reaches it (plain spellings go through the search)
+        let t = r.pick(&copies[name]).clone();
+        let rel_to_target = |from: &str| -> String {
+            let ups = if from == "." { 0 } else { from.split('/').count() };
+            let tp = path_of(&t, name);
+            format!("{}{}", "../".repeat(ups), tp)
+        };
+        let plain_ok = from_dir.map(|d| copies[name].iter().any(|c| c == d)).unwrap_or(false) || jd.iter().any(|j| copies[name].contains(j));
+        let pick = r.below(20);
+        let pick = if pick <= 8 && !plain_ok && r.chance(9, 10) { 9 + r.below(5) } else { pick };
+        match pick {
+            0..=6 => name.to_string(),
+            7 | 8 => format!("./{name}"),
+            9 | 10 => format!("<ROOT>/{}", path_of(&t, name)),
+            11..=13 => match from_dir {
+                Some(d) => rel_to_target(d),
+                None if !jd.is_empty() => { let j: String = r.pick(jd).clone(); rel_to_target(&j) }
+                None => name.to_string(),
+            },
+            14 if from_dir.map(|d| copies[name].contains(&format!("{d}/sub"))).unwrap_or(false) => format!("sub/{name}"),
+            15 if from_dir == Some("app") && copies[name].contains(&"app".to_string()) => format!("sub/../{name}"),
+            16 | 17 if has_lnk && from_dir == Some("app") && copies[name].contains(&"j0".to_string()) => format!("lnk/{name}"),
+            18 | 19 if alias_d && name == "d.libsonnet" && (from_dir == Some("app") || from_dir == Some(".")) => "alias_d.libsonnet".to_string(),
+            _ => name.to_string(),
+        }
+    };
+    let mut modules: BTreeMap<String, Module> = BTreeMap::new();
+    let ext_var: Option<(String, String)> = if r.chance(1, 3) {
+        let n = *r.pick(&NAMES[1..]);
+        let d = r.pick(&copies[n]).clone();
+        Some(("xf".to_string(), path_of(&d, n)))
+    } else {
+        None
+    };
+    let gen_module = |r: &mut Rng, id: &str, name_idx: Option<usize>, dir: Option<&str>, is_main: bool| -> (Module, String) {
+        let mut deps: Vec<Dep> = Vec::new();
+        let first = name_idx.map(|i| i + 1).unwrap_or(0);
+        let leaf = name_idx == Some(NAMES.len() - 1);
+        let ndeps = if leaf { 0 } else { r.usize_below(4) + usize::from(is_main) };
+        for k in 0..ndeps {
+            let field = format!("d{k}");
+            match r.below(8) {
+                0 => deps.push(Dep { field, kind: DepKind::ImportStr, spelling: spell(r, "t.txt", dir, &jdirs, &copies), line: 0, col: 0 }),
+                1 => deps.push(Dep { field, kind: DepKind::ImportBin, spelling: spell(r, "u.bin", dir, &jdirs, &copies), line: 0, col: 0 }),
+                2 => deps.push(Dep { field, kind: DepKind::ImportStr, spelling: spell(r, NAMES[NAMES.len() - 1], dir, &jdirs, &copies), line: 0, col: 0 }),
+                3 if is_main && ext_var.is_some() => deps.push(Dep { field, kind: DepKind::Ext(ext_var.as_ref().unwrap().0.clone()), spelling: String::new(), line: 0, col: 0 }),
+                _ => {
+                    if first < NAMES.len() {
+                        let n = NAMES[first + r.usize_below(NAMES.len() - first)];
+                        deps.push(Dep { field, kind: DepKind::Import, spelling: spell(r, n, dir, &jdirs, &copies), line: 0, col: 0 });
+                    }
+                }
+            }
+        }
+        if is_main && planted > 0 {
+            let sp = match planted {
+                1 => "nonexistent_x.libsonnet",
+                2 => "dangling.libsonnet",
+                _ => "isdir.libsonnet",
+            };
+            let kind = if r.chance(1, 2) { DepKind::Import } else { DepKind::ImportStr };
+            let at = r.usize_below(deps.len() + 1);
+            deps.insert(at, Dep { field: String::new(), kind, spelling: sp.to_string(), line: 0, col: 0 });
+            for (k, d) in deps.iter_mut().enumerate() {
+                d.field = format!("d{k}");
+            }
+        }
+        let lazy = if r.chance(1, 2) { Some("missing_never_demanded.libsonnet") } else { None };
+        let unused = if r.chance(1, 2) { Some(name_idx.map(|i| NAMES[r.usize_below(i + 1)]).unwrap_or("a.libsonnet")) } else { None };
+        let text = module_text(id, &mut deps, lazy, unused);
+        (Module { id: id.to_string(), deps }, text)
+    };
+    for (i, n) in NAMES.iter().enumerate() {
+        for d in copies[*n].clone() {
+            let id = format!("{}@{}", n.trim_end_matches(".libsonnet"), d);
+            let (m, text) = gen_module(&mut r, &id, Some(i), Some(&d), false);
+            let p = path_of(&d, n);
+            tree.push((p.clone(), Entry::File(text.into_bytes())));
+            modules.insert(p, m);
+        }
+    }
+    for d in copies["t.txt"].clone() {
+        let content: Vec<u8> = match r.below(4) {
+            0 => format!("text@{d}\r\nline2\n").into_bytes(),
+            1 => {
+                let mut v = format!("bad-utf8@{d}:").into_bytes();
+                v.extend_from_slice(&[0xff, 0xfe, 0x00, 0xc3, 0x28, b'\n']);
+                v
+            }
+            2 => Vec::new(),
+            _ => format!("plain é🙂 @{d}").into_bytes(),
+        };
+        tree.push((path_of(&d, "t.txt"), Entry::File(content)));
+    }
+    for d in copies["u.bin"].clone() {
+        let content: Vec<u8> = if r.chance(1, 3) { (0..=255u8).collect() } else { (0..r.usize_below(12)).map(|_| r.below(256) as u8).collect() };
+        let mut c = content;
+        c.extend_from_slice(d.as_bytes());
+        tree.push((path_of(&d, "u.bin"), Entry::File(c)));
+    }
+    let (main, main_text) = gen_module(&mut r, "main", None, main_dir.as_deref(), true);
+    let mut argv: Vec<String> = Vec::new();
+    for j in &jdirs {
+        argv.push(if r.chance(1, 3) { "--jpath".into() } else { "-J".into() });
+        argv.push(j.clone());
+    }
+    let mut ext_files = Vec::new();
+    if let Some((var, path)) = &ext_var {
+        if main.deps.iter().any(|d| matches!(&d.kind, DepKind::Ext(_))) || r.chance(1, 2) {
+            argv.push("--ext-code-file".into());
+            argv.push(format!("{var}={path}"));
+            ext_files.push((var.clone(), path.clone()));
+        }
+    }
+    let mut stdin = None;
+    match &main_kind {
+        MainKind::File(p) => {
+            let real = if p == "main.jsonnet" { "main.jsonnet".to_string() } else { "app/main.jsonnet".to_string() };
+            tree.push((real, Entry::File(main_text.into_bytes())));
+            argv.push(p.clone());
+        }
+        MainKind::Exec => {
+            argv.push("-e".into());
+            argv.push(main_text);
+        }
+        MainKind::Stdin => {
+            stdin = Some(main_text.into_bytes());
+            argv.push("-".into());
+        }
+    }
+    // an ext var that is referenced but whose argument was not given would be a different error; keep consistent
+    C13World { world: World { tree, argv, env: vec![("NO_COLOR".into(), "1".into())], stdin, stdout: StdoutKind::File }, modules, main, main_kind, jdirs, ext_files }
+}
+
+// ---------------------------------------------------------------------------
+// reference model
+
+#[derive(Clone, Debug)]
+pub struct Site {
+    pub importer_ids: String,
+    pub importer_reprs: Vec<String>,
+    pub line: usize,
+    pub col: usize,
+    pub spelling: String,
+}
+
+#[derive(Default)]
+pub struct Predicted {
+    pub tree: Option<Json>,
+    /// ids of module instances created (each must be evaluated exactly once)
+    pub instances: BTreeMap<String, Vec<String>>,
+    /// further paths a module may have been loaded by (reached from an --ext-code-file argument's own spelling)
+    pub extra_paths: BTreeMap<String, Vec<String>>,
+    /// demanded import sites by the identity (relative canonical path) they resolve to
+    pub sites_by_file: BTreeMap<String, Vec<Site>>,
+    /// demanded sites that cannot succeed (missing / dangling / directory)
+    pub failing_sites: Vec<Site>,
+    pub ambiguous: bool,
+    pub probes: BTreeMap<String, u64>,
+}
+
+struct Model<'a> {
+    w: &'a C13World,
+    root: &'a Path,
+    search: Vec<String>,
+    by_canon: BTreeMap<PathBuf, String>,
+    p: Predicted,
+    stack_guard: u32,
+    dry: bool,
+}
+
+impl Model<'_> {
+    fn resolve(&mut self, importer_loaded: Option<&str>, spelling: &str) -> Option<String> {
+        let sp = spelling.replace("<ROOT>", &self.root.to_string_lossy());
+        let path = Path::new(&sp);
+        if path.is_absolute() {
+            return if path.exists() { Some(sp) } else { None };
+        }
+        let mut cands: Vec<PathBuf> = Vec::new();
+        if let Some(imp) = importer_loaded {
+            if let Some(parent) = Path::new(imp).parent() {
+                cands.push(parent.join(path));
+            }
+        }
+        for j in &self.search {
+            cands.push(Path::new(j).join(path));
+        }
+        for (k, c) in cands.iter().enumerate() {
+            let full = if c.is_absolute() { c.clone() } else { self.root.join(c) };
+            if full.exists() {
+                if importer_loaded.is_some() && k == 0 && cands.len() > 1 {
+                    // does a -J copy exist as well? then the importer's directory shadowed it
+                    if cands[1..].iter().any(|c2| self.root.join(c2).exists()) {
+                        bump(&mut self.p.probes, "importer_dir_copy_shadows_a_J_copy");
+                    }
+                }
+                if k >= 1 || importer_loaded.is_none() {
+                    let later = cands[k + 1..].iter().filter(|c2| self.root.join(c2).exists()).count();
+                    if later >= 1 {
+                        bump(&mut self.p.probes, "rightmost_of_several_J_copies_wins");
+                    }
+                }
+                if full.is_dir() && cands[k + 1..].iter().any(|c2| self.root.join(c2).is_file()) {
+                    // a directory candidate shadows a later file: the statement fixes neither outcome
+                    self.p.ambiguous = true;
+                }
+                return Some(c.to_string_lossy().to_string());
+            }
+        }
+        None
+    }
+
+    fn rel_canon(&self, loaded: &str) -> Option<(PathBuf, String)> {
+        let full = if Path::new(loaded).is_absolute() { PathBuf::from(loaded) } else { self.root.join(loaded) };
+        let canon = full.canonicalize().ok()?;
+        let rel = canon.strip_prefix(self.root).ok()?.to_string_lossy().to_string();
+        Some((canon, rel))
+    }
+
+    fn site(&self, importer_id: &str, importer_reprs: &[String], d: &Dep) -> Site {
+        Site { importer_ids: importer_id.to_string(), importer_reprs: importer_reprs.to_vec(), line: d.line, col: d.col, spelling: d.spelling.clone() }
+    }
+
+    /// Expected value of a module loaded by `loaded` (None = a demanded import below it fails).
+    fn module(&mut self, loaded: &str) -> Option<Json> {
+        let (canon, rel) = self.rel_canon(loaded)?;
+        let m = self.w.modules.get(&rel)?.clone();
+        let first = !self.by_canon.contains_key(&canon);
+        if self.dry {
+            let paths = self.p.extra_paths.entry(m.id.clone()).or_default();
+            if paths.contains(&loaded.to_string()) {
+                return Some(Json::Null);
+            }
+            paths.push(loaded.to_string());
+            let reprs = vec![loaded.to_string()];
+            return self.body(&m, Some(loaded), &reprs);
+        }
+        self.by_canon.entry(canon).or_insert_with(|| m.id.clone());
+        let paths = self.p.instances.entry(m.id.clone()).or_default();
+        if !paths.contains(&loaded.to_string()) {
+            paths.push(loaded.to_string());
+            if paths.len() == 2 {
+                bump(&mut self.p.probes, "same_file_by_two_spellings");
+            }
+        }
+        let _ = first;
+        let reprs = vec![loaded.to_string()];
+        self.body(&m, Some(loaded), &reprs)
+    }
+
+    fn body(&mut self, m: &Module, loaded: Option<&str>, reprs: &[String]) -> Option<Json> {
+        self.stack_guard += 1;
+        if self.stack_guard > 64 {
+            return None;
+        }
+        let mut deps: Vec<(String, Json)> = Vec::new();
+        let mut ok = true;
+        for d in &m.deps {
+            let site = self.site(&m.id, reprs, d);
+            let v = match &d.kind {
+                DepKind::Ext(var) => {
+                    let path = self.w.ext_files.iter().find(|(v, _)| v == var).map(|(_, p)| p.clone());
+                    match path {
+                        Some(p) => {
+                            bump(&mut self.p.probes, "module_shared_between_ext_code_file_and_import");
+                            self.module(&p)
+                        }
+                        None => None,
+                    }
+                }
+                kind => match self.resolve(loaded, &d.spelling) {
+                    None => {
+                        if !self.dry {
+                            self.p.failing_sites.push(site);
+                        }
+                        None
+                    }
+                    Some(chosen) => {
+                        let full = if Path::new(&chosen).is_absolute() { PathBuf::from(&chosen) } else { self.root.join(&chosen) };
+                        if full.is_dir() || !full.exists() {
+                            if !self.dry {
+                                self.p.failing_sites.push(site);
+                            }
+                            None
+                        } else {
+                            if let (false, Some((_, rel))) = (self.dry, self.rel_canon(&chosen)) {
+                                self.p.sites_by_file.entry(rel).or_default().push(site.clone());
+                            }
+                            if loaded.is_none() {
+                                bump(&mut self.p.probes, "import_from_virtual_main");
+                            }
+                            match kind {
+                                DepKind::Import => {
+                                    let v = self.module(&chosen);
+                                    if self.w.main.id != m.id {
+                                        bump(&mut self.p.probes, "second_level_import");
+                                    }
+                                    v
+                                }
+                                DepKind::ImportStr => {
+                                    let bytes = std::fs::read(&full).ok()?;
+                                    if std::str::from_utf8(&bytes).is_err() {
+                                        bump(&mut self.p.probes, "importstr_of_invalid_utf8");
+                                    }
+                                    Some(Json::Str(String::from_utf8_lossy(&bytes).into_owned()))
+                                }
+                                DepKind::ImportBin => {
+                                    let bytes = std::fs::read(&full).ok()?;
+                                    if bytes.len() >= 256 {
+                                        bump(&mut self.p.probes, "importbin_with_all_256_byte_values");
+                                    }
+                                    Some(Json::Arr(bytes.iter().map(|b| Json::Num(f64::from(*b))).collect()))
+                                }
+                                DepKind::Ext(_) => unreachable!(),
+                            }
+                        }
+                    }
+                },
+            };
+            match v {
+                Some(v) => deps.push((d.field.clone(), v)),
+                None => {
+                    ok = false;
+                    break;
+                }
+            }
+        }
+        self.stack_guard -= 1;
+        if !ok {
+            return None;
+        }
+        let mut fields = vec![("deps".to_string(), Json::Obj(deps)), ("file".to_string(), Json::Str(format!("\u{0}FILE:{}", m.id))), ("id".to_string(), Json::str(&m.id))];
+        fields.push(("unused".to_string(), Json::Num(0.0)));
+        Some(Json::Obj(fields))
+    }
+}
+
+pub fn predict(w: &C13World, root: &Path) -> Predicted {
+    let search: Vec<String> = w.jdirs.iter().rev().cloned().collect();
+    let mut m = Model { w, root, search, by_canon: BTreeMap::new(), p: Predicted::default(), stack_guard: 0, dry: false };
+    // --ext-code-file arguments are loaded (not evaluated) before anything runs
+    let (loaded, reprs): (Option<String>, Vec<String>) = match &w.main_kind {
+        MainKind::File(p) => {
+            let p = p.replace("<ROOT>", &root.to_string_lossy());
+            (Some(p.clone()), vec![p])
+        }
+        MainKind::Exec => (None, vec!["<cmdline>".into()]),
+        MainKind::Stdin => (None, vec!["<stdin>".into()]),
+    };
+    m.p.instances.insert("main".into(), reprs.clone());
+    let main = w.main.clone();
+    let tree = m.body(&main, loaded.as_deref(), &reprs);
+    m.p.tree = tree;
+    // which further paths can modules have been loaded by, starting from the --ext-code-file spellings?
+    let probes = std::mem::take(&mut m.p.probes);
+    let ambiguous = m.p.ambiguous;
+    m.dry = true;
+    for (_, p) in w.ext_files.clone() {
+        m.stack_guard = 0;
+        let _ = m.module(&p);
+    }
+    m.p.probes = probes;
+    m.p.ambiguous = ambiguous;
+    m.p
+}
+
+/// Compares the observed JSON with the predicted tree. `file` fields must be
+/// one of the paths the model says the file can be loaded by, and the same
+/// for every occurrence of the same id.
+fn compare(obs: &Json, exp: &Json, inst: &BTreeMap<String, Vec<String>>, ext_paths: &BTreeMap<String, Vec<String>>, seen_file: &mut BTreeMap<String, String>, path: &str) -> Result<(), String> {
+    match (obs, exp) {
+        (Json::Str(o), Json::Str(e)) if e.starts_with("\u{0}FILE:") => {
+            let id = &e[6..];
+            let mut allowed: Vec<String> = inst.get(id).cloned().unwrap_or_default();
+            if let Some(x) = ext_paths.get(id) {
+                allowed.extend(x.iter().cloned());
+            }
+            if !allowed.contains(o) {
+                return Err(format!("P1 {path}: std.thisFile of {id} is {o:?}, not one of the paths it was loaded by {allowed:?}"));
+            }
+            match seen_file.get(id) {
+                Some(prev) if prev != o => Err(format!("P2 {path}: {id} reports std.thisFile {o:?} here and {prev:?} elsewhere (loaded twice?)")),
+                _ => {
+                    seen_file.insert(id.to_string(), o.clone());
+                    Ok(())
+                }
+            }
+        }
+        (Json::Obj(o), Json::Obj(e)) => {
+            let ok: BTreeSet<&String> = o.iter().map(|(k, _)| k).collect();
+            let ek: BTreeSet<&String> = e.iter().map(|(k, _)| k).collect();
+            // `unused` is only present when the module has that field
+            let ok2: BTreeSet<&String> = ok.iter().filter(|k| k.as_str() != "unused").copied().collect();
+            let ek2: BTreeSet<&String> = ek.iter().filter(|k| k.as_str() != "unused").copied().collect();
+            if ok2 != ek2 {
+                return Err(format!("P1 {path}: fields {ok:?} != expected {ek:?}"));
+            }
+            for (k, ev) in e {
+                if k == "unused" {
+                    continue;
+                }
+                let ov = &o.iter().find(|(k2, _)| k2 == k).unwrap().1;
+                compare(ov, ev, inst, ext_paths, seen_file, &format!("{path}.{k}"))?;
+            }
+            Ok(())
+        }
+        (Json::Arr(o), Json::Arr(e)) => {
+            if o.len() != e.len() {
+                return Err(format!("P1 {path}: array of {} items, expected {}", o.len(), e.len()));
+            }
+            for (i, (a, b)) in o.iter().zip(e.iter()).enumerate() {
+                compare(a, b, inst, ext_paths, seen_file, &format!("{path}[{i}]"))?;
+            }
+            Ok(())
+        }
+        (a, b) if a == b => Ok(()),
+        (a, b) => Err(format!("P1 {path}: got {} expected {}", trunc(&a.to_string()), trunc(&b.to_string()))),
+    }
+}
+
+fn trunc(s: &str) -> String {
+    if s.len() > 1500 { format!("{}…", s.chars().take(1500).collect::<String>()) } else { s.to_string() }
+}
+
+fn eval_counts(stderr: &str) -> BTreeMap<String, u32> {
+    let mut m = BTreeMap::new();
+    for line in stderr.lines() {
+        if let Some(id) = line.strip_prefix("TRACE: EVAL:") {
+            *m.entry(id.to_string()).or_insert(0) += 1;
+        }
+    }
+    m
+}
+
+fn all_reprs(w: &C13World, pred: &Predicted, root: &str, id: &str) -> Vec<String> {
+    let mut v: Vec<String> = pred.instances.get(id).cloned().unwrap_or_default();
+    v.extend(pred.extra_paths.get(id).cloned().unwrap_or_default());
+    // a module given as --ext-code-file is loaded by that path before any import of it
+    for (_, p) in &w.ext_files {
+        if let Ok(c) = Path::new(root).join(p).canonicalize() {
+            if let Ok(rel) = c.strip_prefix(root) {
+                if w.modules.get(&rel.to_string_lossy().to_string()).map(|m| m.id == id).unwrap_or(false) {
+                    v.push(p.clone());
+                }
+            }
+        }
+    }
+    v
+}
+
+fn site_reported(w: &C13World, pred: &Predicted, stderr: &str, site: &Site, root: &str) -> bool {
+    let msg = format!("failed to import {:?}", site.spelling);
+    if !stderr.contains(&msg) {
+        return false;
+    }
+    all_reprs(w, pred, root, &site.importer_ids).iter().any(|r| {
+        let r = r.replace(root, "<ROOT>");
+        stderr.contains(&format!(" --> {r}:{}:{}", site.line, site.col))
+    })
+}
+
+/// P1/P2 (and planted real faults, P5) on a fault-free run.
+pub fn check_fault_free(w: &C13World, out: &RunOut, pred: &Predicted) -> Result<(), (String, String, String)> {
+    let bad = |inv: &str, class: &str, msg: String| Err((inv.to_string(), class.to_string(), msg));
+    if crate::c12::has_panic(&out.stderr) {
+        return bad("I5", "panic", format!("panic on stderr: {}", trunc(&out.stderr)));
+    }
+    if out.timed_out || out.signal.is_some() {
+        return bad("P1", "abnormal-exit", format!("timed out or killed: signal {:?}", out.signal));
+    }
+    let counts = eval_counts(&out.stderr);
+    for (id, n) in &counts {
+        if *n > 1 {
+            return bad("P2", "module-evaluated-twice", format!("module {id} was evaluated {n} times"));
+        }
+    }
+    if pred.ambiguous {
+        if !matches!(out.exit, Some(0) | Some(1)) {
+            return bad("P1", "abnormal-exit", format!("exit {:?}", out.exit));
+        }
+        return Ok(());
+    }
+    match &pred.tree {
+        Some(tree) => {
+            if out.exit != Some(0) {
+                return bad("P1", "unexpected-failure", format!("model predicts success, tool exits {:?}; stderr {}", out.exit, trunc(&out.stderr)));
+            }
+            let text = String::from_utf8_lossy(&out.stdout);
+            let obs = match json::parse(&text) {
+                Ok(j) => j,
+                Err(e) => return bad("P1", "stdout-not-json", format!("{e}")),
+            };
+            let ext_paths: BTreeMap<String, Vec<String>> = BTreeMap::new();
+            let mut inst = pred.instances.clone();
+            for m in w.modules.values() {
+                let all = all_reprs(w, pred, &out.root, &m.id);
+                if !all.is_empty() {
+                    inst.insert(m.id.clone(), all);
+                }
+            }
+            let mut seen = BTreeMap::new();
+            if let Err(e) = compare(&obs, tree, &inst, &ext_paths, &mut seen, "$") {
+                let class = if e.starts_with("P2") { "thisfile-inconsistent" } else if e.contains("std.thisFile") { "thisfile-wrong" } else { "resolution-or-content-differs" };
+                return bad(if e.starts_with("P2") { "P2" } else { "P1" }, class, e);
+            }
+            // P2: exactly one EVAL per instance, none for files the model never loads
+            for id in pred.instances.keys() {
+                if counts.get(id).copied().unwrap_or(0) != 1 {
+                    return bad("P2", "module-not-evaluated-once", format!("module {id} evaluated {} times, model says once", counts.get(id).copied().unwrap_or(0)));
+                }
+            }
+            for id in counts.keys() {
+                if !pred.instances.contains_key(id) {
+                    return bad("P2", "undemanded-module-evaluated", format!("module {id} was evaluated but no demanded import resolves to it"));
+                }
+            }
+            Ok(())
+        }
+        None => {
+            // a demanded import cannot succeed: error at (one of) the failing sites
+            if out.exit != Some(1) {
+                return bad("P5", "missing-import-not-an-error", format!("a demanded import cannot be resolved but the tool exits {:?}", out.exit));
+            }
+            if !out.stdout.is_empty() {
+                return bad("P5", "stdout-on-import-failure", "stdout not empty".into());
+            }
+            if pred.failing_sites.is_empty() {
+                return Ok(());
+            }
+            if !pred.failing_sites.iter().any(|s| site_reported(w, pred, &out.stderr, s, &out.root)) {
+                return bad("P5", "import-site-not-reported", format!("none of the failing import sites {:?} is reported on stderr: {}", pred.failing_sites.iter().map(|s| format!("{}:{}:{} {:?}", s.importer_reprs.join("|"), s.line, s.col, s.spelling)).collect::<Vec<_>>(), trunc(&out.stderr)));
+            }
+            Ok(())
+        }
+    }
+}
+
+#[derive(Clone, Debug)]
+pub struct FaultPlan {
+    pub rules: Vec<Rule>,
+    pub hard: bool,
+    pub kind: String,
+    pub file: String,
+}
+
+pub fn fault_plans(log: &[LogLine], rng: &mut Rng, limit: usize) -> Vec<FaultPlan> {
+    let mut plans = Vec::new();
+    for (op, target, k, _is_out, _last) in crate::c12::instances(log) {
+        let Some(file) = target.strip_prefix("path:") else { continue };
+        let nth = format!("nth:{k}");
+        let mk = |rules: Vec<Rule>, hard: bool, kind: &str| FaultPlan { rules, hard, kind: kind.to_string(), file: file.to_string() };
+        match op.as_str() {
+            "open" => {
+                for e in ["EACCES", "EIO", "EMFILE", "ENOENT"] {
+                    plans.push(mk(vec![Rule::new("open", &target, &nth, &format!("errno:{e}"))], true, &format!("open:{e}")));
+                }
+                plans.push(mk(vec![Rule::new("open", &target, &nth, "eintr")], false, "open:eintr"));
+            }
+            "read" => {
+                plans.push(mk(vec![Rule::new("read", &target, &nth, "errno:EIO")], true, "read:EIO"));
+                plans.push(mk(vec![Rule::new("read", &target, &nth, "eintr")], false, "read:eintr"));
+                let n = 1 + rng.below(9);
+                plans.push(mk(vec![Rule::new("read", &target, &format!("from:{k}"), &format!("short:{n}"))], false, "read:short"));
+            }
+            "realpath" => {
+                for e in ["EACCES", "ELOOP"] {
+                    plans.push(mk(vec![Rule::new("realpath", &target, &nth, &format!("errno:{e}"))], true, &format!("realpath:{e}")));
+                }
+            }
+            _ => {}
+        }
+    }
+    if plans.len() > limit {
+        rng.shuffle(&mut plans);
+        plans.truncate(limit);
+    }
+    plans
+}
+
+/// P5 under a shim fault on `plan.file`.
+pub fn check_fault_run(w: &C13World, base: &RunOut, pred: &Predicted, plan: &FaultPlan, out: &RunOut) -> Result<(), (String, String, String)> {
+    let bad = |inv: &str, class: &str, msg: String| Err((inv.to_string(), format!("{class}:{}", plan.kind), msg));
+    if crate::c12::has_panic(&out.stderr) {
+        return bad("I5", "panic", format!("panic on stderr: {}", trunc(&out.stderr)));
+    }
+    if out.timed_out || out.signal.is_some() || !matches!(out.exit, Some(0) | Some(1)) {
+        return bad("P5", "abnormal-exit", format!("exit {:?} signal {:?}", out.exit, out.signal));
+    }
+    for (id, n) in eval_counts(&out.stderr) {
+        if n > 1 {
+            return bad("P2", "module-evaluated-twice", format!("module {id} was evaluated {n} times"));
+        }
+    }
+    let fired_err = out.log.iter().any(|l| l.injected && matches!(&l.result, Err(e) if e != "EINTR"));
+    let fired = out.log.iter().any(|l| l.injected);
+    if !fired || (!plan.hard && out.exit == Some(0)) || pred.ambiguous {
+        // invisible: the run must be indistinguishable from the fault-free one
+        if pred.ambiguous {
+            return Ok(());
+        }
+        if out.exit != base.exit || out.stdout != base.stdout {
+            return bad("P5", "transparent-fault-changed-output", format!("exit {:?} vs {:?}, or stdout differs, although the fault is transparent or never fired", out.exit, base.exit));
+        }
+        if eval_counts(&out.stderr) != eval_counts(&base.stderr) {
+            return bad("P2", "transparent-fault-changed-evaluations", "EVAL trace lines differ from the fault-free run".into());
+        }
+        return Ok(());
+    }
+    if base.exit != Some(0) {
+        // the world already fails for a planted reason; it must still fail
+        if out.exit == Some(0) {
+            return bad("P5", "failing-world-succeeded", "exit 0 under a fault although the fault-free run fails".into());
+        }
+        return Ok(());
+    }
+    if plan.hard && fired_err && out.exit == Some(0) {
+        return bad("P5", "unreadable-file-not-an-error", format!("{} on {} was answered with exit 0", plan.kind, plan.file));
+    }
+    if out.exit == Some(1) {
+        if !out.stdout.is_empty() {
+            return bad("P5", "stdout-on-import-failure", "stdout not empty although the run failed".into());
+        }
+        let file_canon0 = Path::new(&out.root).join(&plan.file).canonicalize().ok().and_then(|c| c.strip_prefix(&out.root).ok().map(|r| r.to_string_lossy().to_string())).unwrap_or_else(|| plan.file.clone());
+        let is_main = matches!(&w.main_kind, MainKind::File(_)) && (file_canon0 == "app/main.jsonnet" || file_canon0 == "main.jsonnet");
+        let is_ext_arg = w.ext_files.iter().any(|(_, p)| Path::new(&out.root).join(p).canonicalize().ok().map(|c| c.ends_with(&plan.file)).unwrap_or(false));
+        // the shim names files as spelled; sites are keyed by canonical identity
+        let file_canon = Path::new(&out.root).join(&plan.file).canonicalize().ok().and_then(|c| c.strip_prefix(&out.root).ok().map(|r| r.to_string_lossy().to_string())).unwrap_or_else(|| plan.file.clone());
+        let sites = pred.sites_by_file.get(&file_canon).cloned().unwrap_or_default();
+        if sites.is_empty() && !is_main && !is_ext_arg {
+            return bad("P5", "fault-on-undemanded-file-visible", format!("no demanded import resolves to {} yet the run failed: {}", plan.file, trunc(&out.stderr)));
+        }
+        if !is_main && !is_ext_arg && !sites.iter().any(|s| site_reported(w, pred, &out.stderr, s, &out.root)) {
+            return bad("P5", "import-site-not-reported", format!("failure of {} is not reported at any import site resolving to it {:?}: {}", plan.file, sites.iter().map(|s| format!("{}:{}:{}", s.importer_reprs.join("|"), s.line, s.col)).collect::<Vec<_>>(), trunc(&out.stderr)));
+        }
+        if out.stderr.trim().is_empty() {
+            return bad("P5", "silent-failure", "nothing on stderr".into());
+        }
+    }
+    Ok(())
+}
+
+pub fn world_to_json(w: &C13World, plan: &[Rule]) -> Json {
+    let mut f = w.world.to_json(plan);
+    let dep_json = |d: &Dep| {
+        Json::obj(vec![
+            ("field", Json::str(&d.field)),
+            ("kind", Json::str(match &d.kind { DepKind::Import => "import".to_string(), DepKind::ImportStr => "importstr".to_string(), DepKind::ImportBin => "importbin".to_string(), DepKind::Ext(v) => format!("ext:{v}") })),
+            ("spelling", Json::str(&d.spelling)),
+            ("line", Json::int(d.line as i64)),
+            ("col", Json::int(d.col as i64)),
+        ])
+    };
+    let mod_json = |m: &Module| Json::obj(vec![("id", Json::str(&m.id)), ("deps", Json::Arr(m.deps.iter().map(dep_json).collect()))]);
+    f.push((
+        "model".into(),
+        Json::obj(vec![
+            ("kind", Json::str("c13")),
+            ("modules", Json::Obj(w.modules.iter().map(|(k, m)| (k.clone(), mod_json(m))).collect())),
+            ("main", mod_json(&w.main)),
+            ("main_kind", Json::str(match &w.main_kind { MainKind::File(p) => format!("file:{p}"), MainKind::Exec => "exec".into(), MainKind::Stdin => "stdin".into() })),
+            ("jdirs", Json::Arr(w.jdirs.iter().map(Json::str).collect())),
+            ("ext_files", Json::Arr(w.ext_files.iter().map(|(v, p)| Json::Arr(vec![Json::str(v), Json::str(p)])).collect())),
+        ]),
+    ));
+    Json::Obj(f)
+}
+
+pub fn world_from_json(j: &Json) -> Option<(C13World, Vec<Rule>)> {
+    let (world, plan) = World::from_json(j)?;
+    let m = j.get("model")?;
+    let dep = |d: &Json| -> Option<Dep> {
+        let k = d.get("kind")?.as_str()?;
+        Some(Dep {
+            field: d.get("field")?.as_str()?.to_string(),
+            kind: match k { "import" => DepKind::Import, "importstr" => DepKind::ImportStr, "importbin" => DepKind::ImportBin, other => DepKind::Ext(other.strip_prefix("ext:")?.to_string()) },
+            spelling: d.get("spelling")?.as_str()?.to_string(),
+            line: d.get("line")?.as_u64()? as usize,
+            col: d.get("col")?.as_u64()? as usize,
+        })
+    };
+    let module = |m: &Json| -> Option<Module> { Some(Module { id: m.get("id")?.as_str()?.to_string(), deps: m.get("deps")?.as_arr()?.iter().map(dep).collect::<Option<Vec<_>>>()? }) };
+    let mut modules = BTreeMap::new();
+    for (k, v) in m.get("modules")?.as_obj()? {
+        modules.insert(k.clone(), module(v)?);
+    }
+    let mk = m.get("main_kind")?.as_str()?;
+    let main_kind = match mk { "exec" => MainKind::Exec, "stdin" => MainKind::Stdin, other => MainKind::File(other.strip_prefix("file:")?.to_string()) };
+    Some((
+        C13World {
+            world,
+            modules,
+            main: module(m.get("main")?)?,
+            main_kind,
+            jdirs: m.get("jdirs")?.as_arr()?.iter().filter_map(|s| s.as_str().map(String::from)).collect(),
+            ext_files: m.get("ext_files")?.as_arr()?.iter().filter_map(|e| { let a = e.as_arr()?; Some((a.first()?.as_str()?.to_string(), a.get(1)?.as_str()?.to_string())) }).collect(),
+        },
+        plan,
+    ))
+}
+
+pub fn violation(w: &C13World, plan: &[Rule], inv: &str, class: &str, detail: &str, run_index: u64, out: &RunOut, minimised: bool) -> Violation {
+    Violation {
+        property: "C13".into(),
+        engine: "sim-cli".into(),
+        invariant: inv.into(),
+        class: class.into(),
+        detail: detail.into(),
+        run_index,
+        scenario: world_to_json(w, plan),
+        observed: Json::obj(vec![("exit", out.exit.map(Json::int).unwrap_or(Json::Null)), ("stdout", Json::str(trunc(&String::from_utf8_lossy(&out.stdout).replace(&out.root, "<ROOT>")))), ("stderr", Json::str(trunc(&out.stderr)))]),
+        expected: Json::str("see invariant"),
+        event_log_sha256: out.identity(),
+        minimised,
+    }
+}
+
+#[derive(Default)]
+pub struct Stats {
+    pub worlds: u64,
+    pub spawns: u64,
+    pub fault_runs: u64,
+    pub io_calls: u64,
+    pub fault_kinds_fired: BTreeMap<String, u64>,
+    pub probes: BTreeMap<String, u64>,
+    pub tuples: Vec<u64>,
+}
+
+fn shape_class(w: &C13World) -> String {
+    format!("{:?}|J{}|ext{}|mods{}", match &w.main_kind { MainKind::File(p) => p.replace("<ROOT>", "ABS"), MainKind::Exec => "exec".into(), MainKind::Stdin => "stdin".into() }, w.jdirs.len(), w.ext_files.len(), w.modules.len())
+}
+
+pub fn run_one(root_seed: u64, i: u64, max_plans: usize, st: &mut Stats) -> Option<Violation> {
+    let seed = crate::rng::run_seed(root_seed, "sim-cli-c13", i);
+    let w = gen_world(seed);
+    let mut frng = Rng::stream(seed, "fault");
+    st.worlds += 1;
+    let base = run_world(&w.world, &[]);
+    st.spawns += 1;
+    st.io_calls += base.log.len() as u64;
+    let root = PathBuf::from(&base.root);
+    let pred = predict(&w, &root);
+    crate::util::merge_counts(&mut st.probes, &pred.probes);
+    if pred.tree.is_none() {
+        if std::env::var("VERIF_DEBUG").is_ok() {
+            eprintln!("unresolvable in world {i}: {:?} main={:?} jdirs={:?}", pred.failing_sites.iter().map(|s| format!("{}:{}", s.importer_ids, s.spelling)).collect::<Vec<_>>(), w.main_kind, w.jdirs);
+        }
+        bump(&mut st.probes, "world_with_unresolvable_demanded_import");
+        bump(&mut st.fault_kinds_fired, "real:missing-dangling-or-directory-candidate");
+    }
+    if pred.ambiguous {
+        bump(&mut st.probes, "ambiguous_directory_candidate_worlds");
+    }
+    let spell_kinds: BTreeSet<&str> = w.main.deps.iter().chain(w.modules.values().flat_map(|m| m.deps.iter())).map(|d| if d.spelling.starts_with("<ROOT>") { "abs" } else if d.spelling.starts_with("./") { "dot" } else if d.spelling.contains("..") { "dotdot" } else if d.spelling.starts_with("lnk/") { "symlinked-dir" } else if d.spelling.starts_with("alias") { "symlink-file" } else if d.spelling.contains('/') { "subdir" } else { "plain" }).collect();
+    st.tuples.push(crate::rng::fnv1a64(&format!("{}|{:?}|none", shape_class(&w), spell_kinds)));
+    if let Err((inv, class, msg)) = check_fault_free(&w, &base, &pred) {
+        return Some(violation(&w, &[], &inv, &class, &msg, i, &base, false));
+    }
+    // P3 determinism
+    if i % 8 == 0 {
+        let again = run_world(&w.world, &[]);
+        st.spawns += 1;
+        if again.identity() != base.identity() {
+            return Some(violation(&w, &[], "P3", "nondeterministic-run", "two executions of the same world differ (exit status, stdout, stderr or I/O trace)", i, &again, false));
+        }
+        bump(&mut st.probes, "determinism_reexecutions");
+    }
+    // P4: a -J directory holding none of the names changes nothing; permuting -J follows the model
+    if i % 8 == 1 && pred.tree.is_some() && !pred.ambiguous {
+        let mut w2 = w.clone();
+        w2.world.tree.push(("jnone".into(), Entry::Dir));
+        let pos = frng.usize_below(w2.jdirs.len() + 1);
+        w2.jdirs.insert(pos, "jnone".into());
+        w2.world.argv.insert(pos * 2, "-J".into());
+        w2.world.argv.insert(pos * 2 + 1, "jnone".into());
+        let o2 = run_world(&w2.world, &[]);
+        st.spawns += 1;
+        if o2.exit != base.exit || String::from_utf8_lossy(&o2.stdout).replace(&o2.root, "<ROOT>") != String::from_utf8_lossy(&base.stdout).replace(&base.root, "<ROOT>") {
+            return Some(violation(&w2, &[], "P4", "empty-J-dir-changed-output", "adding a -J directory that contains none of the imported names changed the output", i, &o2, false));
+        }
+        bump(&mut st.probes, "P4_empty_J_dir_checked");
+        if w.jdirs.len() >= 2 {
+            let mut w3 = w.clone();
+            let n = w3.jdirs.len();
+            w3.jdirs.reverse();
+            let jargs: Vec<String> = w3.jdirs.iter().flat_map(|j| vec!["-J".to_string(), j.clone()]).collect();
+            w3.world.argv.splice(0..n * 2, jargs);
+            let o3 = run_world(&w3.world, &[]);
+            st.spawns += 1;
+            let root3 = PathBuf::from(&o3.root);
+            let pred3 = predict(&w3, &root3);
+            if let Err((inv, class, msg)) = check_fault_free(&w3, &o3, &pred3) {
+                return Some(violation(&w3, &[], &inv, &format!("permuted-J:{class}"), &format!("(after reversing the -J options) {msg}"), i, &o3, false));
+            }
+            bump(&mut st.probes, "P4_permuted_J_checked");
+        }
+    }
+    // faults inside the lookups
+    let plans = fault_plans(&base.log, &mut frng, max_plans);
+    for plan in &plans {
+        let out = run_world(&w.world, &plan.rules);
+        st.spawns += 1;
+        st.fault_runs += 1;
+        st.io_calls += out.log.len() as u64;
+        if out.log.iter().any(|l| l.injected) {
+            bump(&mut st.fault_kinds_fired, &plan.kind);
+            let demanded = pred.sites_by_file.contains_key(&plan.file);
+            st.tuples.push(crate::rng::fnv1a64(&format!("{}|{}|{}", shape_class(&w), plan.kind, demanded)));
+            if pred.sites_by_file.get(&plan.file).map(|s| s.iter().any(|x| x.importer_ids != "main")).unwrap_or(false) {
+                bump(&mut st.probes, "fault_on_second_level_import");
+            }
+        }
+        if let Err((inv, class, msg)) = check_fault_run(&w, &base, &pred, plan, &out) {
+            let again = run_world(&w.world, &plan.rules);
+            st.spawns += 1;
+            if check_fault_run(&w, &base, &pred, plan, &again).is_err() {
+                return Some(violation(&w, &plan.rules, &inv, &class, &msg, i, &out, false));
+            }
+        }
+    }
+    None
+}
+
+pub fn replay(scenario: &Json) -> Result<Option<Violation>, String> {
+    let (w, plan) = world_from_json(scenario).ok_or("bad c13 scenario")?;
+    let base = run_world(&w.world, &[]);
+    let root = PathBuf::from(&base.root);
+    let pred = predict(&w, &root);
+    if let Err((inv, class, msg)) = check_fault_free(&w, &base, &pred) {
+        return Ok(Some(violation(&w, &[], &inv, &class, &msg, 0, &base, true)));
+    }
+    if plan.is_empty() {
+        return Ok(None);
+    }
+    let file = plan[0].target.strip_prefix("path:").unwrap_or("").to_string();
+    let hard = plan.iter().any(|r| r.act.starts_with("errno:"));
+    let a = plan[0].act.replace("errno:", "");
+    let kind = format!("{}:{}", plan[0].op, if a.starts_with("short") { "short".to_string() } else { a });
+    let fp = FaultPlan { rules: plan.clone(), hard, kind, file };
+    let out = run_world(&w.world, &plan);
+    Ok(check_fault_run(&w, &base, &pred, &fp, &out).err().map(|(inv, class, msg)| violation(&w, &plan, &inv, &class, &msg, 0, &out, true)))
+}
+
+pub fn run_batch(tier: &str, root: u64, workers: usize, scale: u64) -> i32 {
+    let (worlds, max_plans) = if tier == "thorough" { (10_000 * scale, 60usize) } else { (300 * scale, 24usize) };
+    let start = Instant::now();
+    let results = crate::util::run_pool(worlds, workers, |i| {
+        let mut st = Stats::default();
+        let r = std::panic::catch_unwind(std::panic::AssertUnwindSafe(|| run_one(root, i, max_plans, &mut st)));
+        match r {
+            Ok(v) => (st, v),
+            Err(p) => {
+                eprintln!("HARNESS ERROR: {} @ {}", crate::util::panic_message(&p), crate::util::last_panic_loc());
+                std::process::exit(2);
+            }
+        }
+    });
+    let wall = start.elapsed().as_secs_f64();
+    let mut total = Stats::default();
+    let mut violations = Vec::new();
+    let mut tuples = std::collections::HashSet::new();
+    for (st, v) in &results {
+        total.worlds += st.worlds;
+        total.spawns += st.spawns;
+        total.fault_runs += st.fault_runs;
+        total.io_calls += st.io_calls;
+        crate::util::merge_counts(&mut total.fault_kinds_fired, &st.fault_kinds_fired);
+        crate::util::merge_counts(&mut total.probes, &st.probes);
+        tuples.extend(st.tuples.iter().copied());
+        if let Some(v) = v {
+            violations.push(v.clone());
+        }
+    }
+    println!("sim-cli C13: {} worlds, {} spawns of the real binary ({} fault runs), {} violations, {:.1}s", total.worlds, total.spawns, total.fault_runs, violations.len(), wall);
+    let (code, new_count, known_hit) = crate::util::report("C13", tier, root, &violations);
+    let (reg_n, reg_failed) = crate::util::run_regressions("C13", replay);
+    let code = if reg_failed > 0 { 1 } else { code };
+    let new_count = new_count + reg_failed;
+    let mut samples = Vec::new();
+    for i in 0..2u64.min(worlds) {
+        let w = gen_world(crate::rng::run_seed(root, "sim-cli-c13", i));
+        samples.push(Json::obj(vec![("run", Json::Num(i as f64)), ("scenario", world_to_json(&w, &[]))]));
+    }
+    if tier == "thorough" {
+        for (k, v) in &total.probes {
+            if *v == 0 {
+                println!("warning: probe {k} stayed at 0");
+            }
+        }
+    }
+    Evidence {
+        property: "C13".into(),
+        tier: tier.into(),
+        seed: root,
+        level: "exploration".into(),
+        wall_s: wall,
+        violations: new_count,
+        coverage: vec![
+            ("evaluations".into(), Json::Num(total.spawns as f64)),
+            ("distinct_nontrivial".into(), Json::Num(tuples.len() as f64)),
+            ("rule".into(), Json::str("seeded directory-tree worlds (importer dir, 0-3 -J dirs in random order plus missing/empty ones, sub-directory, module files duplicated across directories with a unique id per copy, spellings plain / ./ / sub/../ / absolute / through a symlinked directory / through a symlink to the file / ../J/, import + importstr + importbin of text and binary data, dead and hidden imports closing cycles, main given as relative / ./ / absolute / bare file name / -e / stdin, a module shared between --ext-code-file and import, planted missing / dangling / directory candidates); the real binary's output is compared with a resolution model whose exists/canonical/bytes primitives are asked of the real tree; then every open/read/realpath call of the recorded trace on a tree file is faulted in turn (up to a per-world cap); distinct = distinct (main kind, -J count, ext files, module count, spelling kinds | fault kind x demanded-or-not) tuples.")),
+            ("samples".into(), Json::Arr(samples)),
+            ("worlds".into(), Json::Num(total.worlds as f64)),
+            ("fault_runs".into(), Json::Num(total.fault_runs as f64)),
+            ("runs_per_hour".into(), Json::Num((total.spawns as f64 / wall.max(0.001) * 3600.0).round())),
+            ("seeds".into(), Json::str(format!("root {root}; per-world seeds = splitmix64(root ^ fnv1a64(\"sim-cli-c13\") ^ i*phi) for i in 0..{worlds}"))),
+            ("simulated_time".into(), Json::str(format!("none - the tool reads no clock; progress is counted in intercepted I/O calls ({})", total.io_calls))),
+            ("fault_kinds_fired".into(), crate::util::counts_to_json(&total.fault_kinds_fired)),
+            ("probes".into(), crate::util::counts_to_json(&total.probes)),
+            ("components".into(), Json::obj(vec![
+                ("real", Json::Arr(["the unmodified rsjsonnet binary built from /repo (hooks off)", "rsjsonnet-front Session (find_import, load_real_file, source_cache)", "Rust std fs", "kernel tmpfs incl. symlinks"].iter().map(|s| Json::str(*s)).collect())),
+                ("stub", Json::Arr(["results of libc open/read/realpath calls on tree files when a plan rule fires (LD_PRELOAD shim)"].iter().map(|s| Json::str(*s)).collect())),
+            ])),
+            ("regression_scenarios_replayed".into(), Json::Num(reg_n as f64)),
+            ("known_findings_hit".into(), Json::Arr(known_hit.iter().map(Json::str).collect())),
+        ],
+        assumptions: vec![
+            "the model encodes only what the statement fixes (search order, right-most -J first, absolute bypass, identity across spellings, thisFile = a path the file was loaded by, lossy/exact content); path-resolution minutiae come from the real tree".into(),
+            "symlinks to files are only made for leaf modules so that a module's sub-tree does not depend on which spelling loaded it first".into(),
+            "stat-class faults are not injected".into(),
+        ],
+    }
+    .write();
+    println!("C13 done: {} spawns, {} new violations, {:.1}s", total.spawns, new_count, wall);
+    code
 }
